@@ -20,6 +20,7 @@ Mesh.write() under a watchdog.
 import json
 import os
 import re
+import time
 import warnings
 
 import numpy as np
@@ -338,7 +339,7 @@ def certificate(blocks, chopped):
     return cert
 
 
-def kind_coq(cid, built, o):
+def kind_coq(cid, expect_nv):
     p = cid.split(":")
     if p[0] in ("Box", "Extrude", "ExtrudeVec", "Loft", "Revolve", "Wedge"):
         return "KOp"
@@ -362,9 +363,9 @@ def kind_coq(cid, built, o):
         return "(KJoint 3)"
     if p[0] == "NJoint":
         return "(KJoint %d)" % int(p[1])
-    if built.expect_nv is None:
+    if expect_nv is None:
         raise GenError("no expected vertex count for %s" % cid)
-    return "(KGiven %d)" % built.expect_nv
+    return "(KGiven %d)" % expect_nv
 
 
 def nlist(l):
@@ -383,14 +384,87 @@ def blocks_coq(blocks):
     return "[" + ";\n      ".join(Nlist(b) for b in blocks) + "]"
 
 
-def ifaces_coq(built, o):
+def ifaces_resolved(built, o):
+    """interfaces with absolute block indexes: (fa, sa, fb, sb, gi, gj, count)"""
     out = []
     for f in built.interfaces:
         gi, gj = o.groups[f["i"]], o.groups[f["j"]]
-        out.append("((%s, %s, %s, %s, %s, %s), %d)" % (
-            nlist([gi[0] + b for b in f["fa"]]), SIDE_COQ[f["sa"]], nlist([gj[0] + b for b in f["fb"]]), SIDE_COQ[f["sb"]],
-            nlist(gi), nlist(gj), f["count"]))
-    return "[" + "; ".join(out) + "]"
+        out.append(([gi[0] + b for b in f["fa"]], f["sa"], [gj[0] + b for b in f["fb"]], f["sb"], list(gi), list(gj), int(f["count"])))
+    return out
+
+
+def ifaces_coq(ifaces):
+    return "[" + "; ".join("((%s, %s, %s, %s, %s, %s), %d)" % (nlist(fa), SIDE_COQ[sa], nlist(fb), SIDE_COQ[sb], nlist(gi), nlist(gj), cnt)
+                           for (fa, sa, fb, sb, gi, gj, cnt) in ifaces) + "]"
+
+
+# ------------------------------------------------------------------------------------------------
+# jobs: one catalogue entry (or chain) at one placement -> plain data (runs in worker processes)
+
+
+def run_job(job):
+    cid, pj, workdir = job
+    P = S.Placement.from_json(pj)
+    try:
+        built = S.build(S.entry_for(cid), P)
+        ob = observe(built)
+    except Exception as ex:
+        return dict(cid=cid, placement=pj, err="%s: %s" % (type(ex).__name__, str(ex)[:200]), gen=isinstance(ex, GenError))
+    bad = oracle(built, ob, P, check_write=workdir)
+    res = dict(cid=cid, placement=pj, err=None, blocks=ob.blocks, chopped=ob.chopped, nverts=len(ob.pos),
+               expect_nv=built.expect_nv, ifaces=ifaces_resolved(built, ob), bad=bad, write=getattr(ob, "write", "?"))
+    if bad and cid.startswith("Chain:"):
+        res["min_cid"], res["min_bad"] = shrink_chain(cid, P, bad)
+    return res
+
+
+def shrink_chain(cid, P, bad):
+    """the shortest sub-chain (same source, a subsequence of the steps) on which the oracle still fails"""
+    import itertools
+    steps = cid[6:].split(">")
+    for n in range(0, len(steps) - 1):
+        for sub in itertools.combinations(range(1, len(steps)), n):
+            cand = [steps[0]] + [steps[i] for i in sub]
+            try:
+                built = S.build(("Chain:" + ">".join(cand), "b_chain", dict(steps=cand)), P)
+                b2 = oracle(built, observe(built), P)
+            except Exception:
+                continue
+            if b2:
+                return "Chain:" + ">".join(cand), b2
+    return cid, bad
+
+
+def job_cost(cid):
+    """rough relative cost (assemble is quadratic in the number of blocks)"""
+    p = cid.split(":")
+    if p[0] == "NJoint":
+        return (12 * int(p[1])) ** 2
+    if p[0] == "Chain":
+        return (12 * len(cid.split(">"))) ** 2
+    if "Stack" in p[0]:
+        return 40 ** 2
+    if p[0] in ("TJoint", "LJoint"):
+        return 36 ** 2
+    return 12 ** 2
+
+
+def run_jobs(jobs):
+    """results in the order of the jobs; worker processes (fork) when there is enough to do"""
+    n = int(os.environ.get("VERIF_JOBS", "0") or 0) or min(8, os.cpu_count() or 1)
+    if n <= 1 or len(jobs) < 6:
+        return [run_job(j) for j in jobs]
+    order = sorted(range(len(jobs)), key=lambda i: -job_cost(jobs[i][0]))
+    try:
+        import multiprocessing as mp
+        with mp.get_context("fork").Pool(n) as pool:
+            out = pool.map(run_job, [jobs[i] for i in order], chunksize=1)
+    except (OSError, ImportError, ValueError):
+        return [run_job(j) for j in jobs]
+    res = [None] * len(jobs)
+    for i, r in zip(order, out):
+        res[i] = r
+    return res
 
 
 def tab_sketches():
@@ -436,13 +510,13 @@ def emit_tables(entries, sketches, axis_pairs):
         for (n, sd, quads, grid, chops, npts) in sketches) + "].")
     o.append("")
     names = []
-    for k, (cid, built, ob, cert) in enumerate(entries):
+    for k, e in enumerate(entries):
         nm = "t_%d" % k
         names.append(nm)
-        o.append("(* %d: %s *)" % (k, cid))
+        o.append("(* %d: %s *)" % (k, e["cid"]))
         o.append("Definition %s : shape_tab := {|\n  st_id := %d;\n  st_kind := %s;\n  st_blocks :=\n     %s;\n  st_chopped := %s;\n  st_cert := %s;\n  st_nverts := %d;\n  st_ifaces := %s |}."
-                 % (nm, k, kind_coq(cid, built, ob), blocks_coq(ob.blocks), plist(ob.chopped), plist(cert), len(ob.pos),
-                    ifaces_coq(built, ob)))
+                 % (nm, k, kind_coq(e["cid"], e["expect_nv"]), blocks_coq(e["blocks"]), plist(e["chopped"]), plist(e["cert"]), e["nverts"],
+                    ifaces_coq(e["ifaces"])))
     o.append("")
     o.append("Definition tab_shapes : list shape_tab := [" + "; ".join(names) + "].")
     return "\n".join(o) + "\n"
@@ -468,10 +542,34 @@ SIGS = {
 
 
 def replay_obj(cid, P, bad, extra=None):
-    d = dict(kind="shape", cid=cid, placement=P.to_json(), why=[b[1] for b in bad][:4], codes=sorted({b[0] for b in bad}))
+    pj = P if isinstance(P, dict) else P.to_json()
+    d = dict(kind="shape", cid=cid, placement=pj, why=[b[1] for b in bad][:4], codes=sorted({b[0] for b in bad}))
     if extra:
         d.update(extra)
     return d
+
+
+def job_failure(r):
+    """replay object of a job result on which the direct oracle (or the construction itself) failed"""
+    if r["err"]:
+        return replay_obj(r["cid"], r["placement"], [("exception", r["err"])])
+    if r["bad"]:
+        if "min_cid" in r:
+            return replay_obj(r["min_cid"], r["placement"], r["min_bad"], extra=dict(found_in=r["cid"]))
+        return replay_obj(r["cid"], r["placement"], r["bad"])
+    return None
+
+
+# families of catalogue entries that differ in a topology parameter only: the quick tier draws a few
+# members per family for the random placements (the canonical tables always hold every member)
+QUICK_FAMILY_DRAWS = {"ExtrudedRing": 3, "RevolvedRing": 3, "NJoint": 3, "ExtrudedStack:Grid": 4, "Chain": 10}
+
+
+def family_of(cid):
+    p = cid.split(":")
+    if p[0] == "ExtrudedStack" and p[1] == "Grid":
+        return "ExtrudedStack:Grid"
+    return p[0]
 
 
 class C11(Prop):
@@ -488,45 +586,46 @@ class C11(Prop):
         "reachability certificates are produced by the harness and CHECKED by the proved checker check_cert (not trusted)",
         "'the blocking at any valid placement equals the tabulated one' is sampled (random placements compared in Coq), not proved",
         "choppable => Mesh.write() succeeds relies on C02_complete (property C02); write() itself is only observed under a watchdog",
-        "Jacobian positivity is proved for the extruded FourCoreDisk/HalfDisk/QuarterDisk/OneCoreDisk family and the extruded "
-        "ring with any number >= 3 of segments; for tapered/bent/sheared/spherical/spline shapes it is only validated by the oracle",
+        "Jacobian positivity is proved for the blocks extruded from the FourCoreDisk (Cylinder) and from the Annulus "
+        "(ExtrudedRing, any number >= 3 of segments), tied by interval comparison of the sketch coordinates; for every other "
+        "class (half/quarter/one-core/wrapped/oval/spline sketches, tapered/bent/sheared/spherical shapes, joints) it is only "
+        "validated by the direct oracle at the sampled placements",
     ]
     partial = [
-        "C11_jacobian_partial: positivity of the corner Jacobians proved for the extruded disk family and rings (all centres, "
-        "radius vectors, normals, heights, segment counts >= 3); Frustum, Elbow, RevolvedRing, Hemisphere, Shell, joints, spline "
-        "sketches: validated by the direct oracle at sampled placements only",
+        "C11_jacobian_partial: positivity of the corner Jacobians proved for the extruded four-core disk and rings (all centres, "
+        "radius vectors, normals, heights, segment counts >= 3); Frustum, Elbow, RevolvedRing, Hemisphere, Shell, joints, the "
+        "other disk sketches and the spline sketches: validated by the direct oracle at sampled placements only",
         "C11_choppable: proves 'every family holds a chop'; that this makes Mesh.write() succeed is C02_complete",
     ]
 
     # ---- S1
     def generate(self, ctx):
         from classy_blocks.util import constants
+        t0 = time.time()
         cat = S.catalogue(thorough=not ctx.quick)
-        entries = []
-        P = S.Placement()
-        for e in cat:
-            try:
-                built = S.build(e, P)
-                ob = observe(built)
-            except GenError:
-                raise
-            except Exception as ex:
-                raise GenError("catalogue entry %s cannot be built at the canonical placement: %s: %s" % (e[0], type(ex).__name__, ex))
-            cert = certificate(ob.blocks, ob.chopped)
-            entries.append((e[0], built, ob, cert))
+        P0 = S.Placement().to_json()
         sketches = tab_sketches()
         axis_pairs = [[(int(a), int(b)) for (a, b) in ax] for ax in constants.AXIS_PAIRS]
+        # canonical placement: tables + the full direct oracle including Mesh.write()
+        entries = run_jobs([(e[0], P0, ctx.work) for e in cat])
+        for e in entries:
+            if e["err"]:
+                raise GenError("catalogue entry %s cannot be built at the canonical placement: %s" % (e["cid"], e["err"]))
+            e["cert"] = certificate(e["blocks"], e["chopped"])
         ctx.write_gen("Tables", emit_tables(entries, sketches, axis_pairs))
         import props.C11_geom as G
         ctx.write_gen("GeomConst", G.emit_const()[0])
         self._entries = entries
-        self._index = {cid: k for k, (cid, _b, _o, _c) in enumerate(entries)}
+        self._index = {e["cid"]: k for k, e in enumerate(entries)}
+        ctx.log("S1: %d catalogue entries tabulated at the canonical placement in %.1fs" % (len(entries), time.time() - t0))
 
     # ---- S3
     def correspond(self, ctx):
+        from concurrent.futures import ThreadPoolExecutor
         res = CorrResult()
         res.rule = ("every catalogue class at random placements (rotation in general position, scale 0.1..10, offset, normals "
-                    "of arbitrary length) plus random chains of <= 4 shapes: the assembled block vertex lists and chopped "
+                    "of arbitrary length; quick tier: a few members of each family that differs in a topology parameter only) plus "
+                    "random chains of <= 4 shapes: the assembled block vertex lists and chopped "
                     "(block, axis) pairs are compared in Coq with the tabulated canonical ones (chains: checked directly with the "
                     "Coq checkers); sketch plane coordinates compared with the closed-form model by `interval` (1e-9 relative); "
                     "non-trivial = more than one block; distinct by (class, placement)")
@@ -534,77 +633,63 @@ class C11(Prop):
             res.error = "tables were not generated"
             return res
         entries = self._entries
-        cases = []   # (k, cid, P, blocks, chopped) compared with table k
-        free = []    # (cid, built, ob, cert) random chains checked directly
         rng = ctx.rng
-        # canonical placement: the full oracle, with write()
-        for (cid, built, ob, cert) in entries:
-            bad = oracle(built, ob, S.Placement(), check_write=ctx.work)
+        # geometric tie: its Coq files are compiled in the background while the shapes are built
+        geo_cases, geo_shards = self.geometry_cases(ctx, res)
+        bg = ThreadPoolExecutor(max_workers=1)
+        geo_future = bg.submit(core.run_cases_parallel, ctx, geo_shards)
+        # canonical placement: the full oracle, with write(), was evaluated with the tabulation
+        for e in entries:
             res.evaluations += 1
-            res.count("write=" + getattr(ob, "write", "?"))
-            res.count("class=" + cid.split(":")[0])
-            if bad:
-                res.oracle_failures.append(replay_obj(cid, S.Placement(), bad))
-        nplace = ctx.n(1, 8)
-        for rep in range(nplace):
-            for k, (cid, _b, _o, _c) in enumerate(entries):
-                if ctx.quick and rep > 0:
-                    break
-                P = S.random_placement(rng)
-                try:
-                    built = S.build(S.entry_for(cid), P)
-                    ob = observe(built)
-                except Exception as ex:
-                    res.oracle_failures.append(replay_obj(cid, P, [("exception", "%s: %s" % (type(ex).__name__, str(ex)[:200]))]))
-                    continue
-                bad = oracle(built, ob, P)
-                res.evaluations += 1
-                res.count("class=" + cid.split(":")[0])
-                if len(ob.blocks) > 1:
-                    res.distinct.add("%s@%r" % (cid, [round(x, 6) for x in P.t]))
-                if bad:
-                    res.oracle_failures.append(replay_obj(cid, P, bad))
-                cases.append((k, cid, P, ob.blocks, ob.chopped))
-        # extra placements of a random subset (quick) to reach the documented ~60 placements beyond one per class
-        extra = ctx.n(60, 600)
-        for _ in range(extra):
+            res.count("write=" + str(e["write"]))
+            res.count("class=" + e["cid"].split(":")[0])
+            if e["bad"]:
+                res.oracle_failures.append(job_failure(e))
+        # random placements
+        jobs = []      # (cid, placement, None)
+        table = []     # index into entries (None: random chain)
+        fams = {}
+        for k, e in enumerate(entries):
+            fams.setdefault(family_of(e["cid"]), []).append(k)
+        for rep in range(ctx.n(1, 8)):
+            for fam, ks in fams.items():
+                if ctx.quick and fam in QUICK_FAMILY_DRAWS and len(ks) > QUICK_FAMILY_DRAWS[fam]:
+                    ks = sorted(rng.sample(ks, QUICK_FAMILY_DRAWS[fam]))
+                for k in ks:
+                    jobs.append((entries[k]["cid"], S.random_placement(rng).to_json(), None))
+                    table.append(k)
+        for _ in range(ctx.n(16, 600)):
             k = rng.randrange(len(entries))
-            cid = entries[k][0]
-            P = S.random_placement(rng)
-            try:
-                built = S.build(S.entry_for(cid), P)
-                ob = observe(built)
-            except Exception as ex:
-                res.oracle_failures.append(replay_obj(cid, P, [("exception", "%s: %s" % (type(ex).__name__, str(ex)[:200]))]))
-                continue
-            bad = oracle(built, ob, P)
-            res.evaluations += 1
-            res.count("class=" + cid.split(":")[0])
-            if len(ob.blocks) > 1:
-                res.distinct.add("%s@%r" % (cid, [round(x, 6) for x in P.t]))
-            if bad:
-                res.oracle_failures.append(replay_obj(cid, P, bad))
-            cases.append((k, cid, P, ob.blocks, ob.chopped))
-        # random chains
-        for _ in range(ctx.n(25, 300)):
+            jobs.append((entries[k]["cid"], S.random_placement(rng).to_json(), None))
+            table.append(k)
+        for _ in range(ctx.n(14, 300)):
             steps = S.random_chain(rng)
-            cid = "Chain:" + ">".join(steps)
-            P = S.random_placement(rng)
-            try:
-                built = S.build(S.entry_for(cid), P)
-                ob = observe(built)
-            except Exception as ex:
-                res.oracle_failures.append(replay_obj(cid, P, [("exception", "%s: %s" % (type(ex).__name__, str(ex)[:200]))]))
-                continue
-            bad = oracle(built, ob, P)
+            jobs.append(("Chain:" + ">".join(steps), S.random_placement(rng).to_json(), None))
+            table.append(None)
+        t0 = time.time()
+        results = run_jobs(jobs)
+        ctx.log("S3: %d shapes built at random placements in %.1fs" % (len(jobs), time.time() - t0))
+        t0 = time.time()
+        cases = []   # (k, result) compared with table k
+        free = []    # results of random chains, checked directly
+        for k, r in zip(table, results):
             res.evaluations += 1
-            res.count("class=Chain(random)")
-            res.count("chain-length=%d" % len(steps))
-            res.distinct.add("%s@%r" % (cid, [round(x, 6) for x in P.t]))
-            if bad:
-                res.oracle_failures.append(replay_obj(cid, P, bad))
-            free.append((cid, built, ob, certificate(ob.blocks, ob.chopped), P))
-        res.samples = [dict(cid=c[1], placement=c[2].to_json(), blocks=c[3][:2], chopped=c[4][:6]) for c in cases[:3]]
+            res.count("class=" + (r["cid"].split(":")[0] if k is not None else "Chain(random)"))
+            if k is None:
+                res.count("chain-length=%d" % len(r["cid"].split(">")))
+            f = job_failure(r)
+            if f:
+                res.oracle_failures.append(f)
+            if r["err"]:
+                continue
+            if k is None or len(r["blocks"]) > 1:
+                res.distinct.add("%s@%r" % (r["cid"], [round(x, 6) for x in r["placement"]["t"]]))
+            if k is None:
+                r["cert"] = certificate(r["blocks"], r["chopped"])
+                free.append(r)
+            else:
+                cases.append((k, r))
+        res.samples = [dict(cid=r["cid"], placement=r["placement"], blocks=r["blocks"][:2], chopped=r["chopped"][:6]) for (_k, r) in cases[:3]]
         res.traces = len(cases) + len(free)
         # Coq side
         shards = []
@@ -615,7 +700,7 @@ class C11(Prop):
             chunk = cases[s0:s0 + per]
             body = list(head)
             body.append("Definition cases : list (nat * nat * list block * list node) := [")
-            body.append(";\n".join("(%d, %d, %s, %s)" % (s0 + j, k, blocks_coq(bl), plist(ch)) for j, (k, _c, _p, bl, ch) in enumerate(chunk)))
+            body.append(";\n".join("(%d, %d, %s, %s)" % (s0 + j, k, blocks_coq(r["blocks"]), plist(r["chopped"])) for j, (k, r) in enumerate(chunk)))
             body.append("].")
             body.append("Definition agree (c : nat * nat * list block * list node) : bool :=\n"
                         "  let '(_, k, bl, ch) := c in\n"
@@ -623,34 +708,38 @@ class C11(Prop):
                         "  | Some t => blocks_eqb (st_blocks t) bl && nodes_eqb (st_chopped t) ch\n  | None => false end.")
             body.append("Eval vm_compute in (map (fun c => fst (fst (fst c))) (filter (fun c => negb (agree c)) cases)).")
             shards.append(("cases_%d" % (s0 // per), "\n".join(body) + "\n"))
-        perf = 12
+        perf = 8
         for s0 in range(0, len(free), perf):
             chunk = free[s0:s0 + perf]
             body = list(head)
-            for j, (cid, built, ob, cert, _P) in enumerate(chunk):
-                body.append("(* %s *)" % cid)
+            for j, r in enumerate(chunk):
+                body.append("(* %s *)" % r["cid"])
                 body.append("Definition f_%d : shape_tab := {| st_id := %d; st_kind := KGiven %d; st_blocks := %s; st_chopped := %s; "
                             "st_cert := %s; st_nverts := %d; st_ifaces := %s |}."
-                            % (j, s0 + j, built.expect_nv, blocks_coq(ob.blocks), plist(ob.chopped), plist(cert), len(ob.pos),
-                               ifaces_coq(built, ob)))
+                            % (j, s0 + j, r["expect_nv"], blocks_coq(r["blocks"]), plist(r["chopped"]), plist(r["cert"]), r["nverts"],
+                               ifaces_coq(r["ifaces"])))
             body.append("Definition frees : list shape_tab := [" + "; ".join("f_%d" % j for j in range(len(chunk))) + "].")
             body.append("Eval vm_compute in (map st_id (filter (fun t => negb (tab_conformal t && tab_oriented t && tab_choppable t && tab_ifaces t)) frees)).")
             shards.append(("free_%d" % (s0 // perf), "\n".join(body) + "\n"))
-        geo_cases, geo_shards = self.geometry_cases(ctx, res)
-        shards += geo_shards
-        for (name, rc, so, se) in core.run_cases_parallel(ctx, shards):
+        outs = core.run_cases_parallel(ctx, shards)
+        t1 = time.time()
+        outs += geo_future.result()
+        bg.shutdown()
+        ctx.log("S3: %d + %d case files checked by coqc in %.1fs (+%.1fs waiting for the geometric ones)"
+                % (len(shards), len(geo_shards), t1 - t0, time.time() - t1))
+        for (name, rc, so, se) in outs:
             if rc != 0:
                 res.error = "case file %s failed to compile: %s" % (name, se[-800:])
                 return res
             if name.startswith("cases_"):
                 for i in parse_id_list(so):
-                    k, cid, P, bl, ch = cases[i]
-                    res.mismatches.append(dict(case=i, cid=cid, placement=P.to_json(), what="blocking at this placement differs from the canonical table",
-                                               blocks=bl[:4], chopped=ch))
+                    k, r = cases[i]
+                    res.mismatches.append(dict(case=i, cid=r["cid"], placement=r["placement"], what="blocking at this placement differs from the canonical table",
+                                               blocks=r["blocks"][:4], chopped=r["chopped"]))
             elif name.startswith("free_"):
                 for i in parse_id_list(so):
-                    cid, built, ob, cert, P = free[i]
-                    res.mismatches.append(dict(case=i, cid=cid, placement=P.to_json(), what="random chain fails a Coq checker (conformal/oriented/choppable/interface)"))
+                    r = free[i]
+                    res.mismatches.append(dict(case=i, cid=r["cid"], placement=r["placement"], what="random chain fails a Coq checker (conformal/oriented/choppable/interface)"))
             else:
                 oks = set(int(x) for x in re.findall(r"^OK (\d+)", so, flags=re.M))
                 mis = set(int(x) for x in re.findall(r"^MISMATCH (\d+)", so, flags=re.M))
@@ -659,80 +748,74 @@ class C11(Prop):
                     g = geo_cases[gid]
                     if gid in mis or gid not in oks:
                         res.mismatches.append(dict(case=gid, cid=g["cid"], placement=g["placement"], what="sketch coordinates differ from the closed-form model" if gid in mis else "goal printed no verdict",
-                                                   point=g.get("point")))
+                                                   point=g.get("point"), impl=g.get("impl"), args=g.get("args")))
         return res
 
-    # geometric correspondence (N): filled in by geometry module below
+    # geometric correspondence (N)
     def geometry_cases(self, ctx, res):
-        try:
-            import props.C11_geom as G
-        except ImportError:
-            return [], []
+        import props.C11_geom as G
         return G.cases(ctx, res)
 
     # ---- S4
     def search(self, ctx, broken, corr):
         fails = []
-        # canonical catalogue with the direct oracle
-        P0 = S.Placement()
         seen = set()
+
+        def add(rp):
+            sig = self.signature(rp)
+            if sig not in seen:
+                seen.add(sig)
+                fails.append(rp)
+
+        # the catalogue at the canonical and at a random placement, with the direct oracle
+        P0 = S.Placement().to_json()
+        jobs = []
         for e in S.catalogue(thorough=False):
-            for P in (P0, S.random_placement(ctx.rng)):
-                try:
-                    built = S.build(e, P)
-                    ob = observe(built)
-                    bad = oracle(built, ob, P)
-                except Exception as ex:
-                    bad = [("exception", "%s: %s" % (type(ex).__name__, str(ex)[:200]))]
-                if bad:
-                    rp = replay_obj(e[0], P, bad)
-                    sig = self.signature(rp)
-                    if sig not in seen:
-                        seen.add(sig)
-                        fails.append(rp)
+            jobs.append((e[0], P0, None))
+            jobs.append((e[0], S.random_placement(ctx.rng).to_json(), None))
+        for r in run_jobs(jobs):
+            f = job_failure(r)
+            if f:
+                add(f)
         for m in corr.mismatches[:10]:
-            if "cid" in m and "placement" in m:
-                P = S.Placement.from_json(m["placement"])
-                try:
-                    built = S.build(S.entry_for(m["cid"]), P)
-                    ob = observe(built)
-                    bad = oracle(built, ob, P)
-                except Exception as ex:
-                    bad = [("exception", "%s: %s" % (type(ex).__name__, str(ex)[:200]))]
+            if "cid" not in m or "placement" not in m:
+                continue
+            bad = []
+            if m["cid"].startswith("sketch:"):
+                import props.C11_geom as G
+                bad = G.direct_oracle(m)
+            else:
+                r = run_job((m["cid"], m["placement"], None))
+                f = job_failure(r)
+                if f:
+                    add(f)
+                    continue
                 # a placement-dependent blocking is itself a failure of "for any valid placement"
-                if not bad and "differs from the canonical" in m.get("what", ""):
+                if "differs from the canonical" in m.get("what", ""):
                     bad = [("placement-dependent", m["what"])]
-                if not bad and "sketch coordinates" in m.get("what", ""):
-                    try:
-                        import props.C11_geom as G
-                        bad = G.direct_oracle(m)
-                    except ImportError:
-                        bad = []
-                if bad:
-                    rp = replay_obj(m["cid"], P, bad)
-                    sig = self.signature(rp)
-                    if sig not in seen:
-                        seen.add(sig)
-                        fails.append(rp)
+            if bad:
+                add(replay_obj(m["cid"], m["placement"], bad, extra=dict(point=m.get("point"), args=m.get("args"))))
         return fails
 
     def signature(self, rp):
+        """one signature per (class or sketch or minimal chain, failure codes)"""
         cid = rp.get("cid", "")
-        base = cid
+        p = cid.split(":")
         if cid.startswith("Chain:"):
-            # the step that fails is what matters: keep the chain itself
-            base = cid
+            steps = cid[6:].split(">")
+            base = steps[0] if len(steps) == 1 else cid   # a source that fails on its own is that class's failure
+        elif p[0] in ("ExtrudedShape", "RevolvedShape", "LoftedShape") or "Stack" in p[0] or p[0] == "sketch":
+            base = "sketch=" + p[1]
         else:
-            p = cid.split(":")
-            if p[0] in ("ExtrudedShape", "RevolvedShape", "LoftedShape") or "Stack" in p[0]:
-                base = "sketch=" + p[1]
-            elif p[0] in ("NJoint", "ExtrudedRing", "RevolvedRing"):
-                base = p[0]
-            else:
-                base = p[0]
+            base = p[0]
         return "C11:%s:%s" % (base, "+".join(rp.get("codes", [])))
 
     def replay(self, ctx, obj):
+        if obj.get("cid", "").startswith("sketch:"):
+            import props.C11_geom as G
+            print("class:", obj["cid"], "arguments:", obj.get("args"))
+            print("oracle:", G.sketch_oracle(obj["cid"], obj["args"]) or "ok")
+            return 0
         P = S.Placement.from_json(obj["placement"])
         built = S.build(S.entry_for(obj["cid"]), P)
         ob = observe(built)
